@@ -46,17 +46,17 @@ type capture struct {
 }
 
 type popState struct {
-	c       *fw.C
-	e       *kinds.Env
-	noCache *kinds.Env
-	live    []*liveTree
-	caps    []*capture
-	pool    []interface{}
-	hist    []string
-	nextID  int
+	c               *fw.C
+	e               *kinds.Env
+	noCache         *kinds.Env
+	live            []*liveTree
+	caps            []*capture
+	pool            []interface{}
+	hist            []string
+	nextID          int
 	mutAfterCapture bool
 	reopenedCached  bool
-	failed  bool
+	failed          bool
 }
 
 func (p *popState) logf(f string, a ...interface{}) {
